@@ -553,6 +553,12 @@ func runConfig(cfg childCfg, nConv int, replay []conversation) {
 				id++
 				convs = append(convs, cv)
 			}
+			// and the deterministic multi-connection family (one session driven from two connections)
+			for _, cv := range linkedConversations(cfg) {
+				cv.ID = id
+				id++
+				convs = append(convs, cv)
+			}
 		}
 		sem := make(chan struct{}, par)
 		var wg sync.WaitGroup
@@ -571,7 +577,12 @@ func runConfig(cfg childCfg, nConv int, replay []conversation) {
 				logf.Write(append(b, '\n'))
 				logMu.Unlock()
 				inflight.Store(cv.ID, cv)
-				o := runConversation(ch, cv)
+				var o outcome
+				if cv.Multi {
+					o = runMulti(ch, cv)
+				} else {
+					o = runConversation(ch, cv)
+				}
 				if !ch.alive() {
 					return // keep it in flight: it is a suspect
 				}
@@ -738,5 +749,5 @@ func main() {
 	run.ReportRaces()
 	run.Assume("'answers or closes within its timeouts': a hostile connection must be closed by the server within idle/read timeout (1 s) + check period + 5 s slack after its last byte (canary-guarded)")
 	run.Assume("cleanup is judged at quiescent points: all hostile connections of a batch closed, the well-behaved client held back; goroutines, callbacks, UDP registrations, stream reader slots and sockets of the server process must equal the baseline within 12 s")
-	run.Finish(evals.Load(), "hostile conversations = valid conversations (play / record over TCP, UDP, multicast; secure setup; HTTP and WebSocket tunnel handshakes; garbage) with 0..3 mutations out of 26 grammar-aware and byte-level mutators, sent on up to 96 simultaneous connections to a server in a child process, per server configuration; distinct_nontrivial = distinct (configuration, seed, mutation list, status histogram) conversations completed")
+	run.Finish(evals.Load(), "hostile conversations = valid conversations (play / record over TCP, UDP, multicast; secure setup; HTTP and WebSocket tunnel handshakes; garbage) with 0..3 mutations out of 26 grammar-aware and byte-level mutators, sent on up to 40 simultaneous connections to a server in a child process, per server configuration, preceded by a deterministic boundary family (track ids, interleaved pairs) and a deterministic multi-connection family (one session driven from two connections that leave in either order); distinct_nontrivial = distinct (configuration, seed, mutation list, status histogram) conversations completed")
 }
